@@ -1,5 +1,6 @@
 import Ogorek.Decoder
 import Ogorek.Encoder
+import Ogorek.Conv
 import Ogorek.Generated.IsPrint
 
 /-!
@@ -20,6 +21,16 @@ def parseHook (s : String) : Option Hook :=
   if s == "-" then some none
   else if s == "K" then some (some fun _ _ => .keep)
   else if s == "R" then some (some fun i _ => .replace (.user i))
+  else if s == "I" then some (some fun _ r =>
+    match r with
+    | .ref (.str b) =>
+      match b with
+      | 105 :: 100 :: ds =>
+        match parseDigits? ds with
+        | some n => if natDigits n == ds then .replace (.user n) else .keep
+        | none => .keep
+      | _ => .keep
+    | _ => .keep)
   else if s.front == 'F' then
     (s.drop 1).toString.toNat?.map fun k => some fun i _ => if i == k then .fail else .replace (.user i)
   else none
@@ -107,6 +118,60 @@ def runDecH (mc : MCfg) (hook : Hook) (inp : Bytes) : String :=
   let calls := " ".intercalate (st.calls.reverse.map (renderResolved st))
   showDec inp.length r ++ " ; " ++ calls
 
+def runConv (mc : MCfg) (inp : Bytes) : String :=
+  match decode mc none {} inp with
+  | (.error e, _, _) => s!"ERR {classOf e}"
+  | (.ok v, _, _) =>
+    let i := match asInt64 v with | some i => s!"{i}" | none => "ERR"
+    let s := match asString v with | some b => hexOrDash b | none => "ERR"
+    let b := match asBytes v with | some b => hexOrDash b | none => "ERR"
+    s!"I:{i} S:{s} B:{b}"
+
+def dictContents (es : Entries) : String :=
+  s!"len={es.length} iter={es.length} {(GoVal.dict es).render}"
+
+/-- Split a token list at the end of its first complete value. -/
+def firstValue (toks : List String) : Option (GoVal × List String) := parseVal toks
+
+/-- Replay a Dict history on the abstract table. `Get` prints the set of candidate answers
+    (values of all entries equal to the query) — the contract leaves the choice to the table. -/
+def runDict (spec : String) : String :=
+  let ops := spec.splitOn " ; "
+  let step (acc : Entries × List String) (op : String) : Entries × List String :=
+    let (es, out) := acc
+    match (op.splitOn " ").filter (· ≠ "") with
+    | "S" :: rest =>
+      match firstValue rest with
+      | some (k, rest') =>
+        match parseValue? rest' with
+        | some v =>
+          if hashable k then
+            let es' := dictSetSpec es k v
+            (es', dictContents es' :: out)
+          else (es, ("PANIC:unhashable_type: " ++ dictContents es) :: out)
+        | none => (es, "BADCASE" :: out)
+      | none => (es, "BADCASE" :: out)
+    | "D" :: rest =>
+      match parseValue? rest with
+      | some k =>
+        if hashable k then
+          let es' := es.filter fun e => !goEqual k e.1
+          (es', dictContents es' :: out)
+        else (es, ("PANIC:unhashable_type: " ++ dictContents es) :: out)
+      | none => (es, "BADCASE" :: out)
+    | "G" :: rest =>
+      match parseValue? rest with
+      | some k =>
+        if hashable k then
+          let cands := (matching es k).map fun e => e.2.render
+          let g := if cands.isEmpty then "get=nil" else "get=" ++ "|or|".intercalate cands
+          (es, (g ++ " " ++ dictContents es) :: out)
+        else (es, ("PANIC:unhashable_type: " ++ dictContents es) :: out)
+      | none => (es, "BADCASE" :: out)
+    | _ => (es, "BADCASE" :: out)
+  let (_, out) := ops.foldl step ([], [])
+  " | ".intercalate out.reverse
+
 def ip : IsPrint := Generated.isPrint
 
 /-- Ref hook spec: `-` none; `S` object n ↦ string id "id<n>"; `T` ↦ Tuple{"cls", n};
@@ -167,6 +232,11 @@ def handle (line : String) : String :=
       | some e => s!"ENCERR {e.render}"
       | none => runDec (goCfg c) none (joinChunks o)
     | _, _, _ => "BADCASE"
+  | ["conv", cfg, hex] =>
+    match parseCfg cfg, bytesOfHex? hex with
+    | some c, some inp => runConv (goCfg c) inp
+    | _, _ => "BADCASE"
+  | "dict" :: _ => runDict (line.drop 5).toString
   | ["long", hex] =>
     match bytesOfHex? hex with
     | some b => s!"{decodeLong b}"
